@@ -46,8 +46,16 @@ Definition codec_of (attrs : Z) : N := Z.to_N (Z.land attrs 7).
 Definition is_control (attrs : Z) : bool := Z.testbit attrs 5.
 
 (* ------------------------------------------------------------------ primitives *)
-Definition take (n : nat) (bs : list N) : option (list N * list N) :=
-  if (length bs <? n)%nat then None else Some (firstn n bs, skipn n bs).
+(* the first n bytes and the rest; None when fewer than n are left (cost n, not the length) *)
+Fixpoint take (n : nat) (bs : list N) {struct n} : option (list N * list N) :=
+  match n with
+  | O => Some ([], bs)
+  | S n' =>
+    match bs with
+    | [] => None
+    | b :: t => match take n' t with Some (a, r) => Some (b :: a, r) | None => None end
+    end
+  end.
 Definition get_i (w : nat) (bs : list N) : option (Z * list N) :=
   match take w bs with Some (a, r) => Some (get_bes w a, r) | None => None end.
 Fixpoint bytes_eqb (a b : list N) {struct a} : bool :=
